@@ -136,7 +136,7 @@ def single_call_jobs(ctx):
     k = 0
     for row in R.callable_rows():
         for label, vkey in R.cases(row):
-            for dtype in ("float", "int", "bool"):
+            for dtype in ("float", "int", "bool", "uint8"):
                 variants = [("", None)]
                 for b in row["bad"]:
                     variants.append(("bad%d" % len(variants), b))
@@ -164,6 +164,13 @@ def single_call_jobs(ctx):
                         jobs.append(dict(kind="single", fn=label, base=row["name"], vkey=vkey, dtype=dtype,
                                          bad=bad, tag=tag, seed=ctx.seed * 1000003 + k,
                                          zero_diag=(rep == 2)))
+                # the smallest networks the routine takes (2 / 3 nodes): several routines leave their
+                # normal path there (nothing to swap, no triple, recursion that never ends) and raise
+                if dtype == "float":
+                    for tiny in (2, 3):
+                        k += 1
+                        jobs.append(dict(kind="single", fn=label, base=row["name"], vkey=vkey, dtype=dtype,
+                                         bad=None, tag="tiny%d" % tiny, seed=ctx.seed * 1000003 + k, tiny=tiny))
                 # the copy=False utilities once more on "almost symmetric" float matrices, as they come
                 # out of floating-point pipelines: W[j,i] = W[i,j] +- 1e-9, with half of the values next
                 # to a boundary of the 5-decimal rounding these utilities document (k.5e-5 +- 1e-9) -
@@ -180,8 +187,8 @@ def _exec_single(job):
     import bct
     row = R.BY_NAME[job["base"]]
     rng = random.Random(job["seed"])
-    n = max(6, row["minn"])
-    dtype = float if job["dtype"] == "float" else int
+    n = max(6, row["minn"]) if not job.get("tiny") else max(job["tiny"], row["minn"])
+    dtype = float if job["dtype"] == "float" else int          # (bool / uint8: built as int, converted below)
     args = R.build_special(row, rng, n, diag=not job.get("zero_diag"), dtype=dtype,
                            arbitrary_labels=True, vkey=job["vkey"])
     if job["dtype"] == "float" and job["seed"] % 5 == 0:
@@ -211,6 +218,18 @@ def _exec_single(job):
                             a[y, x] = a[x, y] + e
                             a[x, y] -= e
                 args[i] = a
+    if job["dtype"] == "uint8":
+        # unsigned 8-bit matrices (image-like data, counts): |values| of every integer matrix argument.
+        # Arithmetic on them wraps or raises inside many routines - whatever the routine then does, the
+        # caller's array must come back untouched
+        conv = False
+        for i, a in enumerate(args):
+            if isinstance(a, np.ndarray) and a.ndim == 2 and a.shape[0] == a.shape[1] \
+                    and a.dtype.kind in "iu" and np.abs(a).max(initial=0) < 256:
+                args[i] = np.abs(a).astype(np.uint8)
+                conv = True
+        if not conv:
+            return []
     if job["dtype"] == "bool":
         # boolean adjacency matrices (e.g. W > thr) are a natural caller-side type: every integer
         # matrix argument whose entries are all 0/1 is passed as bool; rows without one are skipped
